@@ -777,12 +777,14 @@ func (ex *Exec) doSelect(st *State, fr *Frame, x *ssa.Select, k CallK) {
 	}
 	if x.Blocking {
 		has := false
+		var ctxs []string
 		for _, s := range x.States {
-			if s.Dir == types.RecvOnly && strings.HasPrefix(ex.val(st, fr, s.Chan).Origin, "ctxdone:") {
+			if o := ex.val(st, fr, s.Chan).Origin; s.Dir == types.RecvOnly && strings.HasPrefix(o, "ctxdone:") {
 				has = true
+				ctxs = append(ctxs, strings.TrimPrefix(o, "ctxdone:"))
 			}
 		}
-		ex.ctxAware(st, fr, x, "select", has)
+		ex.ctxAware(st, fr, x, "select", has, ctxs...)
 	}
 	nStates := len(x.States)
 	total := nStates
